@@ -11,6 +11,7 @@ import (
 	"bufio"
 	"bytes"
 	"context"
+	"crypto/tls"
 	"io"
 	"net"
 	"net/http"
@@ -349,4 +350,50 @@ func vfH_C11_concurrent() {
 	}
 	open, reg := VfOpenConns(p)
 	vfrt.Assert(open == 0 && reg == 0, "concurrent/open-connection-count-returns-to-zero")
+}
+
+//vf:assume C11-tls-handshake: a connection accepted on a TLS listener is still in its handshake (the peer has not sent its hello; the socket's Read blocks) when shutdown is requested; crypto/tls is the transparent-layer model of DESIGN 8.10, so this harness is model-only; then Close is called and the peer goes away
+
+type vfSilentConn struct {
+	*VfConn
+	release chan struct{}
+}
+
+func (c *vfSilentConn) Read(p []byte) (int, error) {
+	<-c.release
+	return 0, io.EOF
+}
+func (c *vfSilentConn) Close() error {
+	err := c.VfConn.Close()
+	if c.VfConn.Closed == 1 {
+		close(c.release) // closing the socket interrupts the pending read
+	}
+	return err
+}
+
+//vf:harness property=C11 nopanic modelonly reach=tls-handshake-in-progress-at-shutdown steps=6000000
+func vfH_C11_tls_handshake() {
+	p := &Proxy{WithoutWarning: true}
+	p.TestingSkipRoundTrip = true
+	p.init()
+	sock := &vfSilentConn{VfConn: NewVfConn(nil), release: make(chan struct{})}
+	conn := tls.Server(sock, &tls.Config{})
+	done := make(chan struct{})
+	go func() {
+		p.handleLoop(conn)
+		close(done)
+	}()
+	vfrt.Reach("tls-handshake-in-progress-at-shutdown")
+	// the connection is in service (its handshake is pending): it counts, and Shutdown does not report success
+	cancelled, cancel := context.WithCancel(context.Background())
+	cancel()
+	open, reg := VfOpenConns(p)
+	vfrt.Assert(open == 1 && reg == 1, "tls-handshake/connection-in-its-handshake-is-counted-as-open")
+	vfrt.Assert(p.Shutdown(cancelled) == context.Canceled, "tls-handshake/shutdown-does-not-report-success-while-a-handshake-is-pending")
+	// Close closes every accepted socket, including this one
+	vfrt.Assert(p.Close() == nil, "tls-handshake/close")
+	vfrt.Assert(sock.Closed >= 1, "tls-handshake/close-closes-the-socket-still-in-its-handshake")
+	<-done
+	open, reg = VfOpenConns(p)
+	vfrt.Assert(open == 0 && reg == 0, "tls-handshake/open-connection-count-returns-to-zero")
 }
